@@ -36,11 +36,21 @@ PROPS == Vers({ <<>>, <<ORD>>, <<UNORD, ORD>>, <<ORD, "X">> })  \* proposals che
 \* version lists (length <= 3)
 ListsQuick == SeqsUpTo(Vers(FSmall), 2)
               \cup [1..3 -> { Ver("1", <<ORD, UNORD>>), Ver("1", <<"X">>), Ver("2", <<ORD>>), Ver("", <<UNORD>>) }]
-ListsFull  == SeqsUpTo(Vers(FSub), 3)
-              \cup SeqsUpTo({ Ver("1", <<UNORD, ORD>>), Ver("1", <<ORD, ORD>>), Ver("2", <<ORD, ORD>>), Ver("1", <<ORD, UNORD>>) }, 3)
-Lists == IF TIER = "quick" THEN ListsQuick ELSE ListsFull
+\* thorough: every list of length <= 3 over the 24 versions  {"1","2",""} x subsets of the three features,
+\* plus lists of versions with duplicated / reordered features
+Lists2 == SeqsUpTo(Vers(FSub), 2)
+          \cup SeqsUpTo({ Ver("1", <<UNORD, ORD>>), Ver("1", <<ORD, ORD>>), Ver("2", <<ORD, ORD>>), Ver("1", <<ORD, UNORD>>) }, 3)
+Lists3 == [1..3 -> Vers(FSub)]
 \* local ("supported") lists of PickVersion: what a chain could offer
 SupLists == SeqsUpTo({ DefaultVersion, Ver("1", <<UNORD>>), Ver("2", <<ORD, "X">>), Ver("2", <<>>) }, 2)
+SupFew   == { Compatible, <<DefaultVersion, Ver("2", <<ORD, "X">>)>>, <<Ver("2", <<ORD, "X">>), Ver("1", <<UNORD>>)>> }
+PropsFew == { Ver("1", <<ORD>>), Ver("1", <<UNORD, ORD>>), Ver("2", <<ORD, "X">>), Ver("", <<>>) }
+
+\* (local list, counterparty list) pairs of PickVersion and (list, proposal) pairs of IsSupportedVersion
+PickPairs == IF TIER = "quick" THEN SupLists \X ListsQuick
+             ELSE (SupLists \X Lists2) \cup (SupFew \X Lists3)
+SuppPairs == IF TIER = "quick" THEN ListsQuick \X PROPS
+             ELSE (Lists2 \X PROPS) \cup (Lists3 \X PropsFew)
 
 Specials == { Ver(" ", <<ORD>>), Ver("1", <<ORD, "">>), Ver("1", <<" ">>), Ver("  ", <<>>) }
 
@@ -50,15 +60,15 @@ Cases ==
     \cup { [fn |-> "valid", v2 |-> a] : a \in VP \cup Specials }
     \cup { [fn |-> "feature", v2 |-> a, feat |-> b] : a \in VP, b \in Feat }
     \cup { [fn |-> "find", vs |-> a, v2 |-> b] : a \in ListsQuick, b \in PROPS }
-    \cup { [fn |-> "supported", vs |-> a, v2 |-> b] : a \in Lists, b \in PROPS }
-    \cup { [fn |-> "pick", vs |-> a, ws |-> b] : a \in SupLists, b \in Lists }
+    \cup { [fn |-> "supported", vs |-> p[1], v2 |-> p[2]] : p \in SuppPairs }
+    \cup { [fn |-> "pick", vs |-> p[1], ws |-> p[2]] : p \in PickPairs }
 
 \* the transcription satisfies the contract it is checked against (specification self-check)
 SelfCheck ==
-    /\ \A a \in SupLists : \A b \in Lists :
-          LET r == PickVersion(a, b) IN r.ok => NegotiatedOk(a, b, r.v) /\ Negotiable(a, b) /\ Len(r.v.f) > 0
+    /\ \A p \in PickPairs :
+          LET r == PickVersion(p[1], p[2]) IN r.ok => NegotiatedOk(p[1], p[2], r.v) /\ Negotiable(p[1], p[2]) /\ Len(r.v.f) > 0
     /\ \A a \in F : \A b \in F : Elems(FeatInter(a, b)) = Elems(a) \cap Elems(b)
-    /\ \A b \in Lists : PickVersion(Compatible, b).ok => IsSupported(Compatible, PickVersion(Compatible, b).v)
+    /\ \A p \in PickPairs : PickVersion(Compatible, p[2]).ok => IsSupported(Compatible, PickVersion(Compatible, p[2]).v)
 
 Init == /\ x = 0
         /\ Assert(SelfCheck, "Versions.tla violates its own contract")
